@@ -72,10 +72,17 @@ struct IsFungible<ReturnA(ArgsA...), ReturnB(ArgsB...),
     : And<IsFungible<std::decay_t<ReturnA>, std::decay_t<ReturnB>>,
           IsFungible<std::decay_t<ArgsA>, std::decay_t<ArgsB>>...> {};
 
+// The element type of an array, without references and cv-qualifiers. Unlike
+// std::decay_t this keeps an element that is itself a C array intact:
+// decaying it to a pointer would drop its extent, making int[2][3] and
+// int[2][4] compare as fungible.
+template <typename T>
+using FungibleArrayElement = std::remove_cv_t<std::remove_reference_t<T>>;
+
 // Compares two std::arrays to see if the element types are fungible.
 template <typename A, typename B, std::size_t Size>
 struct IsFungible<std::array<A, Size>, std::array<B, Size>>
-    : IsFungibleElement<std::decay_t<A>, std::decay_t<B>> {};
+    : IsFungibleElement<FungibleArrayElement<A>, FungibleArrayElement<B>> {};
 
 // Compares two C arrays to see if the element types are fungible. Sizes are
 // explicitly compared to avoid falling back on the base IsFungible type which
@@ -83,7 +90,7 @@ struct IsFungible<std::array<A, Size>, std::array<B, Size>>
 // correctly.
 template <typename A, typename B, std::size_t SizeA, std::size_t SizeB>
 struct IsFungible<A[SizeA], B[SizeB]>
-    : And<IsFungibleElement<std::decay_t<A>, std::decay_t<B>>,
+    : And<IsFungibleElement<FungibleArrayElement<A>, FungibleArrayElement<B>>,
           std::integral_constant<bool, SizeA == SizeB>> {};
 
 // Compares two std::vectors to see if the element types are fungible.
@@ -189,26 +196,26 @@ struct IsFungible<
 // fungible.
 template <typename A, typename B, typename Allocator, std::size_t Size>
 struct IsFungible<std::vector<A, Allocator>, std::array<B, Size>>
-    : IsFungibleElement<std::decay_t<A>, std::decay_t<B>> {};
+    : IsFungibleElement<FungibleArrayElement<A>, FungibleArrayElement<B>> {};
 template <typename A, typename B, typename Allocator, std::size_t Size>
 struct IsFungible<std::array<A, Size>, std::vector<B, Allocator>>
-    : IsFungibleElement<std::decay_t<A>, std::decay_t<B>> {};
+    : IsFungibleElement<FungibleArrayElement<A>, FungibleArrayElement<B>> {};
 
 // Compares C array and std::vector to see if the elements types are fungible.
 template <typename A, typename B, typename Allocator, std::size_t Size>
 struct IsFungible<A[Size], std::vector<B, Allocator>>
-    : IsFungibleElement<std::decay_t<A>, std::decay_t<B>> {};
+    : IsFungibleElement<FungibleArrayElement<A>, FungibleArrayElement<B>> {};
 template <typename A, typename B, typename Allocator, std::size_t Size>
 struct IsFungible<std::vector<A, Allocator>, B[Size]>
-    : IsFungibleElement<std::decay_t<A>, std::decay_t<B>> {};
+    : IsFungibleElement<FungibleArrayElement<A>, FungibleArrayElement<B>> {};
 
 // Compares C array and std::array to see if the element types are fungible.
 template <typename A, typename B, std::size_t Size>
 struct IsFungible<A[Size], std::array<B, Size>>
-    : IsFungibleElement<std::decay_t<A>, std::decay_t<B>> {};
+    : IsFungibleElement<FungibleArrayElement<A>, FungibleArrayElement<B>> {};
 template <typename A, typename B, std::size_t Size>
 struct IsFungible<std::array<A, Size>, B[Size]>
-    : IsFungibleElement<std::decay_t<A>, std::decay_t<B>> {};
+    : IsFungibleElement<FungibleArrayElement<A>, FungibleArrayElement<B>> {};
 
 // Compares Result<ErrorEnum, A> and Result<ErrorEnum, B> to see if A and B are
 // fungible. ErrorEnum must be the same between fungible Result types because
